@@ -223,11 +223,19 @@ def rule_e2(chk, prog, em, tool, seen):
     through unconditional branches only, without any call in between (nothing stored, nothing reported)"""
     n = 0
     for f in prog.functions():
+        status = None
         for c in f.calls():
             if not em.call_is_err(c):
                 continue
             key = (f.unit.src, f.name, c.line, c.col)
             if key in seen:
+                continue
+            if status is None:
+                # 0 means success only in a function that can also say "failed" (a negative constant, a handed-on status);
+                # a function that answers an identifier or a count, with 0 for "none", has no status to lose here (E8 looks
+                # at what its callers do with that answer)
+                status = _has_status_channel(f, em) or f.ret == "void"
+            if not status:
                 continue
             for u in f.uses.get(c, []):
                 if u.op != "icmp" or u.pred not in ("eq", "ne", "slt") or not (u.ops[1].is_const and u.ops[1].is_int and u.ops[1].sval == 0):
@@ -810,6 +818,11 @@ def alias_set(prog, f, c):
                 # phi(alloc, null) or loop-carried copies
                 others = [o for o in u.ops if o not in aliases and not (o.is_const and o.is_null)]
                 if not others:
+                    # a merge that the allocation result only enters over edges behind its NULL test carries no unchecked
+                    # result: what can be NULL in it are the NULLs the program put there itself
+                    inc = [(val, pr) for val, pr in zip(u.ops, u.x["inc"]) if val in aliases]
+                    if inc and all(nonnull_guarded(f, pr, aliases) for (_v, pr) in inc):
+                        continue
                     aliases.append(u)
             elif u.op == "store" and u.ops[0] is a:
                 slots.append(u)
@@ -1349,7 +1362,7 @@ def run(chk):
         "to) before it is dereferenced, and realloc never overwrites the only copy unchecked; packers: every exit after a "
         "successful sqfs_writer_init passes sqfs_writer_cleanup, EXIT_SUCCESS only from the success edge of "
         "sqfs_writer_finish, cleanup unlinks on failure; all four mains: exit status 0 unreachable from every failure "
-        "edge; submit failures propagate. Further rules: E4 (an error result obtained in a loop is examined before the next iteration replaces it), E5 (results of tri-state functions are not collapsed to ==0), E6 (an error edge does not return a regular value), E9 (every failure of a fault source or of a libsquashfs/libutil call in tool-level code is reported on stderr there or on every way up to main's exit: bottom-up summary of functions that hand a failure on unreported, path enumeration from the call under the assumption that it failed), E8 (a failing call in a loop whose result is only compared with 0 does not lead round the loop to the next attempt without a trace), E7 (no path from an allocation-failure edge or a negative-result edge returns 0 / a status variable pinned to 0: path enumeration with phis resolved by edge and loads by the last store), init-unlinks and chdir-undone under K1-cleanup.")
+        "edge; submit failures propagate. Further rules: E4 (an error result obtained in a loop is examined before the next iteration replaces it), E5 (results of tri-state functions are not collapsed to ==0), E6 (an error edge does not return a regular value), E9 (every failure of a fault source or of a libsquashfs/libutil call in tool-level code is reported on stderr there or on every way up to main's exit: bottom-up summary of functions that hand a failure on unreported, path enumeration from the call under the assumption that it failed), E8 (a failing call in a loop whose result is only compared with 0 does not lead round the loop to the next attempt without a trace), E7 (no path from an allocation-failure edge or a negative-result edge returns 0 / a status variable pinned to 0: path enumeration with phis resolved by edge and loads by the last store), init-unlinks and chdir-undone under K1-cleanup. K6-capagree: where an allocation failure is survived by asking for less, the capacity recorded is the one the allocation that succeeded was sized for; E7 does not report a failure that a second allocation on the path made good.")
     chk.assumptions = ["that the handling of a consumed error is *right* is not decided, only that the error reaches a decision"]
     seen1, seen2, seen3, seen4, seen5, seen6, seen7 = set(), set(), set(), set(), set(), set(), set()
     seen8, seen9, seen10 = set(), set(), set()
